@@ -61,12 +61,27 @@ ORACLE = Oracle(on_quiescent=on_quiescent, final=final)
 
 RULE = ("every gate-release / external-send / timer / snapshot+resume order of generated fan-out, retry, "
         "collect, wait, chain workflows through the real control loop on a virtual event loop; an execution is "
-        "non-trivial when it deviates from the default (oldest-first) schedule at least once; distinct = "
+        "non-trivial when it deviates from the default (oldest-first) schedule at least once; plus runs that are hard-stopped (abort) "
+        "and continued from their context in the same process, where whatever the stopped run left executing still counts; distinct = "
         "distinct choice lists")
 
 
+def extra_specs(tier: str) -> list[Any]:
+    """the run is hard-stopped (abort) and its context continued IN THE SAME PROCESS: what the stopped run left running counts"""
+    from vmc.progs import Spec, resp_scripts, wf_fan, wf_wait
+
+    q = tier == "quick"
+    sp = [Spec("fan_abort_continue(k=3,w=2)", {"k": 3, "w": 2}, lambda: wf_fan(3, 2), resume=True, resume_via="abort_same_process",
+               max_dev=(3 if q else 5), tags=("abort_same_process",)),
+          Spec("fan_abort_continue(k=2,w=1)", {"k": 2, "w": 1}, lambda: wf_fan(2, 1), resume=True, resume_via="abort_same_process",
+               max_dev=(3 if q else None), tags=("abort_same_process",)),
+          Spec("wait_abort_continue(w=2)", {"w": 2}, lambda: wf_wait(2, n=2), scripts=resp_scripts(2), resume=True,
+               resume_via="abort_same_process", max_dev=(3 if q else 5), tags=("abort_same_process",))]
+    return sp
+
+
 def programs(tier: str) -> list[Any]:
-    return to_programs(catalog(tier), ORACLE)
+    return to_programs(catalog(tier) + extra_specs(tier), ORACLE)
 
 
 def run(tier: str, seed: int) -> Any:
